@@ -50,11 +50,12 @@ CHECKS["C17"] = {
           quick={"params": {"steps": 2, "shorts": 1}, "timeout": 280, "shards": 8},
           thorough={"params": {"steps": 3, "shorts": 2}, "timeout": 2400, "shards": 8}),
         H("parser", "c17.go", "VerifH_C17_bulk", ["done"], quick={"timeout": 280, "shards": 3}),
+        H("parser", "c17.go", "VerifH_C17_slice", ["done"], quick={"timeout": 280, "shards": 3}),
     ],
     "bounds": {"quick": "file lengths {0,1,3,5,1023,1024,1025,2047,2048,2050,3072,5000} with fully symbolic contents; every sequence of 2 operations over the 9 operation kinds from New() and from a state 1000 bytes into the file; seek targets symbolic within +-2 of {0, L, L/2, 1024, 2048}; read sizes symbolic near 0 and 1024 plus {512,700,2100,negative}; reader may return 1 short read (1 byte or n-1 bytes) or the final bytes together with io.EOF",
                "thorough": "as quick with 3 operations and 2 short reads"},
     "outside": ["file lengths other than the 12 listed", "seek targets/read sizes away from the listed windows", "readers returning (0, nil) forever or non-EOF errors (C18)", "histories longer than 3 operations"],
-    "assumptions": ["reader obeys the io.Reader/io.Seeker contracts; short reads limited per run", "ReadUint16Slice counts <= 2"],
+    "assumptions": ["reader obeys the io.Reader/io.Seeker contracts; short reads limited per run", "ReadUint16Slice counts <= 2 in the history harnesses; count windows around 0, 512, 2^15 and 2^16 in VerifH_C17_slice"],
 }
 
 CHECKS["C03"] = {
@@ -281,6 +282,7 @@ CHECKS["C07"] = {
         H("opentype/gtab", _S7, "VerifH_C07_scratch", ["applied"], quick={"timeout": 280, "shards": 6}),
         H("opentype/gtab", _S7, "VerifH_C07_gposmut", ["accepted", "rejected"], quick={"timeout": 280, "shards": 7}),
         H("opentype/gtab", _S7, "VerifH_C07_sharedtext", ["applied"], quick={"timeout": 280}),
+        H(".", ["c15.go", "common.go"], "VerifH_C15_plain", ["laid out"], quick={"params": {"maxlen": 2}, "timeout": 280}),
         H("opentype/gtab", ["c15.go", "common.go"], "VerifH_C15_find", ["found"], quick={"timeout": 280}),
         H("opentype/gtab", _S7, "VerifH_C06_ligature", ["applied"], quick={"params": {"maxlen": 2}, "timeout": 280}),
         H("opentype/gtab", _S7, "VerifH_C06_multiple", ["applied"], quick={"params": {"maxlen": 2}, "timeout": 280}),
